@@ -187,6 +187,10 @@ int cif_loop_set_category(cif_loop_tp *loop, const UChar *category) {
             }
         }
 
+    }
+
+    if (container == NULL) {
+        /* an unattached loop, such as may be synthesized temporarily during CIF parsing */
         if (category == NULL) {
             category_temp = NULL;
         } else {
@@ -195,10 +199,6 @@ int cif_loop_set_category(cif_loop_tp *loop, const UChar *category) {
                 return CIF_MEMORY_ERROR;
             }
         }
-    }
-
-    if (container == NULL) {
-        /* an unattached loop, such as may be synthesized temporarily during CIF parsing */
         if (loop->category != NULL) {
             free(loop->category);
         }
@@ -219,6 +219,16 @@ int cif_loop_set_category(cif_loop_tp *loop, const UChar *category) {
              * for re-use, exiting this function with an error on failure.
              */
             PREPARE_STMT(cif, set_loop_category, SET_CATEGORY_SQL);
+
+            /* copy the category only now, so that the copy is not lost if the statement cannot be prepared */
+            if (category == NULL) {
+                category_temp = NULL;
+            } else {
+                category_temp = cif_u_strdup(category);
+                if (category_temp == NULL) {
+                    return CIF_MEMORY_ERROR;
+                }
+            }
 
             /* set the category */
             if ((sqlite3_bind_int64(cif->set_loop_category_stmt, 2, container->id) == SQLITE_OK)
